@@ -3,14 +3,14 @@ NEXT GenNext
 CONSTANTS
   Unit = 8
   TickMs = 125
-  Family = "fixed"
-  Bursts = {2}
+  Family = "fixed5"
+  Bursts = {1, 2, 3}
   Rates <- RatesFin
   SetRates <- NoRates
-  Ns = {1, 2}
-  Dts <- GDtsQuick
+  Ns = {0, 1, 2, 4}
+  Dts <- GDtsFwd
   MaxEvents = 5
-  MaxRes = 2
+  MaxRes = 3
   Kinds <- KAll
   Deviation = "none"
 INVARIANT Emit
